@@ -873,7 +873,7 @@ func TestVerifProcessorTicker(t *testing.T) {
 				}
 			}
 		}()
-		limit := 50 * time.Second // 30-s period + slack for a loaded machine
+		limit := 90 * time.Second // 30-s period + generous slack for a loaded machine
 		gone := false
 		deadline := time.After(limit)
 	wait:
@@ -900,7 +900,7 @@ func TestVerifProcessorTicker(t *testing.T) {
 }
 
 // phStallLimit bounds one direct handler call (they take micro- to milliseconds); phStalls counts calls that did not return.
-const phStallLimit = 20 * time.Second
+const phStallLimit = 60 * time.Second
 
 var phStalls int
 
